@@ -1,4 +1,6 @@
 """C02 - read-based phasing of error-free reads reproduces the true haplotypes."""
+import random
+
 from .. import phaseprops as PP
 from .. import phaseworld as PW
 
@@ -12,10 +14,14 @@ EXHAUSTIVE = False
 RULE = ("a scenario is an abstract world (reference, well separated SNV/ins/del/MNP sites, true diploid haplotypes per sample, "
         "error-free reads incl. paired/gapped reads and depth above the cap) materialised as FASTA+VCF+BAM and run through "
         "`whatshap phase` with --tag PS/HP, --only-snvs, --sample subsets, small and default caps; worlds are TLC-enumerated (tiny) "
-        "or seeded random; non-trivial = the output contains a phase set with >= 2 phased variants")
+        "or seeded random; indel sites are unshiftable ones in random sequence or (a quarter of the random worlds plus a family of "
+        "its own) the insertion/deletion of ONE unit of a tandem repeat of the reference (homopolymer runs up to 20, di-/trinucleotide "
+        "repeats up to 20 bases, left-aligned) with a different depth on the two haplotypes; non-trivial = the output contains a phase set with >= 2 phased variants")
 ASSUMPTIONS = [
     "reads are error-free by construction (wv/world.py asserts each read is a substring of its haplotype); sites are 40 bp apart, indels unshiftable",
     "only phased calls are compared with the truth (the statement does not say which variants must be phased)",
+    "tandem-repeat indels are written at their normalised (left-aligned) position in the VCF and in the CIGARs of the reads, and a read "
+    "that covers such a site reads through the whole repeat (a read ending inside the run is a copy of both haplotypes)",
 ]
 
 
@@ -71,8 +77,66 @@ def scenarios(ctx):
             w["phase_vcf"] = True                          # a phased VCF (true haplotypes, blocks) as an additional phase input
         if ns == 1 and rng.random() < 0.15 and not any(d_.get("decoy") == "foreignrg" for d_ in w.get("decoys", [])):
             o["ignore_rg"] = True          # --ignore-read-groups: read groups absent or naming somebody else
+        if not any(r_.get("cut") for r_ in w["reads"]):
+            rr = random.Random(w["seed"] + 41)             # own stream: the other decorations stay as they were
+            if rr.random() < 0.25:
+                repeat_sites(rr, w, 0.6)                   # some indel sites become +-1 unit of a tandem repeat
+        scs.append({"world": w})
+    for i in range(250 if ctx.quick else 2500):
+        w = repeat_world(rng)
+        w["opts"] = {"tag": rng.choice(["PS", "HP"]), "max_coverage": rng.choice([15, 15, 15, 5])}
         scs.append({"world": w})
     return scs
+
+
+REPEAT_UNITS = ["A", "C", "G", "T", "CA", "TG", "AT", "GA", "TC", "CAG", "AAT", "GGC"]
+
+
+def rand_repeat(rng):
+    """a tandem repeat of 3..20 bases: homopolymer runs (often >= 10), dinucleotide repeats (often >= 7 units), a few trinucleotides"""
+    unit = rng.choice(REPEAT_UNITS)
+    lo = {1: 3, 2: 2, 3: 2}[len(unit)]
+    hi = 20 // len(unit)
+    n = rng.randint(lo, hi) if rng.random() < 0.3 else rng.randint(max(lo, (10 + 2 * len(unit)) // len(unit)), hi)
+    return {"unit": unit, "n": n}
+
+
+def repeat_sites(rng, w, p):
+    for ch in w["chroms"]:
+        for s_ in ch["sites"]:
+            if s_["kind"] in ("ins", "del") and rng.random() < p:
+                s_["rep"] = rand_repeat(rng)
+                s_["len"] = len(s_["rep"]["unit"])
+
+
+def repeat_world(rng):
+    """One sample, 3-7 sites, SNVs mixed with heterozygous indels that add / remove ONE unit of a tandem repeat of the reference
+    (left-aligned; reads carry the I/D at that place and read through the whole run), and a different depth on the two
+    haplotypes (1-2 copies per read on one, 2-4 on the other; the thin haplotype is as often the one with the indel as not)."""
+    n = rng.randint(3, 7)
+    sites = [{"kind": "snv", "len": 1} for _ in range(n)]
+    for i in rng.sample(range(n), rng.randint(1, max(1, n // 2))):
+        sites[i] = {"kind": rng.choice(["ins", "del"]), "len": 1}
+    w = {"seed": rng.randrange(10 ** 6), "chroms": [{"name": "chr1", "sites": sites}], "samples": ["s1"],
+         "truth": {"s1": [[rng.choice([[0, 1], [1, 0]]) for _ in range(n)]]}, "reads": [], "errfree": True, "ped": []}
+    repeat_sites(rng, w, 0.9)
+    thin = rng.randint(0, 1)
+    for hap in (0, 1):
+        first = 0
+        while True:                                   # a chain of overlapping reads over all sites, plus a few extra ones
+            last = min(n - 1, first + rng.randint(1, 3))
+            w["reads"].append({"sample": "s1", "chrom": 0, "hap": hap, "first": first, "last": last, "gap": None,
+                               "copies": rng.randint(1, 2) if hap == thin else rng.randint(2, 4)})
+            if last == n - 1:
+                break
+            first = rng.randint(max(first + 1, last - 1), last)
+        for _ in range(rng.randint(0, 2)):
+            a = rng.randint(0, n - 2)
+            b = rng.randint(a + 1, min(n - 1, a + 3))
+            gap = [a, b] if b - a >= 2 and rng.random() < 0.3 else None
+            w["reads"].append({"sample": "s1", "chrom": 0, "hap": hap, "first": a, "last": b, "gap": gap, "copies": 1})
+    rng.shuffle(w["reads"])
+    return w
 
 
 def cutlink_world(rng):
@@ -137,7 +201,7 @@ MANIFEST = {
     "text": "PhasePipeline.tla models the stages of `whatshap phase` (Detect, Select, Solve, Components, Write) by their contracts; TLC "
             "checks exhaustively for tiny worlds that any maximal capped selection and any optimal solution of error-free reads yield "
             "the true haplotypes up to a flip per read-connected component. Whole runs of the real pipeline on materialised worlds "
-            "(seeded random: indels/MNPs, several samples and chromosomes, paired reads, depth above the cap, both tags, --only-snvs, "
+            "(seeded random: indels/MNPs, indels of one unit inside tandem repeats with unequal haplotype depth, several samples and chromosomes, paired reads, depth above the cap, both tags, --only-snvs, "
             "--sample/--chromosome) are recorded through the H1 hook and the output VCF and judged by TLC (PhaseRun!TruthUpToFlip).",
     "note": "trusted: TLC, PhaseRun.tla, the materialiser wv/world.py (self-asserting) and projection; sampling beyond the tiny exhaustive space",
     "technique": "TLA+ pipeline spec model-checked with TLC + TLC trace validation of recorded whole-pipeline runs on materialised worlds",
